@@ -474,7 +474,12 @@ def run(ctx):
     n = ctx.budget(300, 10000)
     base = ctx.seed * 1000003 + ctx.shard * 1000000
     for i in range(n):
-        part_a_case(ctx, base + i)
+        try:
+            part_a_case(ctx, base + i)
+        except Exception as ex:
+            # recording, storing, fetching and replaying a call set never raises on the unchanged tree (what the replayed program
+            # itself catches is journaled): an exception escaping here comes out of the framework
+            ctx.violation('recording / fetching / replaying a call set raised %s' % type(ex).__name__, {'case_seed': base + i, 'error': repr(ex)[:200]})
     part_b(ctx, 4 if ctx.quick else 32, 25 if ctx.quick else 60)
     if ctx.shard == 0:
         key_while_another_thread_saves(ctx)
